@@ -157,6 +157,7 @@ func (q *abortableWaitGroup) Add(delta int) {
 		q.counter += delta
 		q.wq.Add(delta)
 	}
+	verifEv("wg.add", "", q.counter)
 }
 
 func (q *abortableWaitGroup) Done() {
@@ -165,7 +166,11 @@ func (q *abortableWaitGroup) Done() {
 
 	if !q.abort {
 		q.counter -= 1
+		verifEv("wg.done", "", q.counter)
 		q.wq.Done()
+	}
+	if q.abort {
+		verifEv("wg.done.aborted", "", q.counter)
 	}
 }
 
@@ -174,6 +179,7 @@ func (q *abortableWaitGroup) Abort() {
 	defer q.mu.Unlock()
 
 	q.abort = true
+	verifEv("wg.abort", "", q.counter)
 	q.wq.Add(-q.counter)
 }
 
@@ -404,11 +410,17 @@ func (q *TransferQueue) remember(t *objectTuple) objects {
 		q.transfers[t.Oid] = &objects{
 			objects: []*objectTuple{t},
 		}
+		verifEv("remember.new", t.Oid, 1)
 
 		return *q.transfers[t.Oid]
 	}
 
 	q.transfers[t.Oid] = q.transfers[t.Oid].Append(t)
+	if q.transfers[t.Oid].completed {
+		verifEv("remember.dupdone", t.Oid, len(q.transfers[t.Oid].objects))
+	} else {
+		verifEv("remember.dup", t.Oid, len(q.transfers[t.Oid].objects))
+	}
 
 	return *q.transfers[t.Oid]
 }
@@ -461,6 +473,7 @@ func (q *TransferQueue) collectBatches() {
 		var retries batch
 		var err error
 
+		verifEv("col.launch", "", len(next))
 		go func() {
 			defer close(done)
 
@@ -481,6 +494,7 @@ func (q *TransferQueue) collectBatches() {
 		// don't process further batches.  Abort the wait queue so that
 		// we don't deadlock waiting for objects to complete when they
 		// never will.
+		verifEv("col.after", "", len(collected))
 		if err != nil && !errors.IsRetriableError(err) {
 			q.wait.Abort()
 			break
@@ -543,9 +557,11 @@ func (q *TransferQueue) enqueueAndCollectRetriesFor(batch batch) (batch, error) 
 
 	next := q.makeBatch()
 	tracerx.Printf("tq: sending batch of size %d", len(batch))
+	verifEv("batch.call", "", len(batch))
 
 	enqueueRetry := func(t *objectTuple, err error, readyTime *time.Time) {
 		count := q.rc.Increment(t.Oid)
+		verifEv("retry", t.Oid, count)
 
 		if !t.retryLaterTime.IsZero() {
 			t.ReadyTime = t.retryLaterTime
@@ -556,6 +572,7 @@ func (q *TransferQueue) enqueueAndCollectRetriesFor(batch batch) (batch, error) 
 			t.ReadyTime = *readyTime
 		}
 		delay := time.Until(t.ReadyTime).Seconds()
+		verifEv("retry.delay", t.Oid, int(delay*1000))
 
 		var errMsg string
 		if err != nil {
@@ -595,6 +612,7 @@ func (q *TransferQueue) enqueueAndCollectRetriesFor(batch batch) (batch, error) 
 					enqueueRetry(t, err, &readyTime)
 				} else {
 					hasNonRetriableObjects = true
+					verifEv("batch.objfail", t.Oid, 0)
 					q.wait.Done()
 				}
 			}
@@ -639,6 +657,7 @@ func (q *TransferQueue) enqueueAndCollectRetriesFor(batch batch) (batch, error) 
 		if o.Error != nil {
 			q.errorc <- errors.Wrapf(o.Error, "[%v] %v", o.Oid, o.Error.Message)
 			q.Skip(o.Size)
+			verifEv("obj.error", o.Oid, 0)
 			q.wait.Done()
 
 			continue
@@ -655,6 +674,7 @@ func (q *TransferQueue) enqueueAndCollectRetriesFor(batch batch) (batch, error) 
 			q.errorc <- errors.New(tr.Tr.Get("[%v] The server returned an unknown OID.", o.Oid))
 
 			q.Skip(o.Size)
+			verifEv("obj.unknown", o.Oid, 0)
 			q.wait.Done()
 		} else {
 			// Pick t[0], since it will cover all transfers with the
@@ -668,13 +688,16 @@ func (q *TransferQueue) enqueueAndCollectRetriesFor(batch batch) (batch, error) 
 					q.errorc <- errors.Errorf("[%v] %v", tr.Name, err)
 
 					q.Skip(o.Size)
+					verifEv("obj.relerr", o.Oid, 0)
 					q.wait.Done()
 				}
 			} else if a == nil && manifest.standaloneTransferAgent == "" {
 				q.Skip(o.Size)
+				verifEv("obj.noaction", o.Oid, 0)
 				q.wait.Done()
 			} else {
 				q.meter.StartTransfer(objects.First().Name)
+				verifEv("obj.xfer", o.Oid, 0)
 				toTransfer = append(toTransfer, tr)
 			}
 		}
@@ -844,12 +867,14 @@ func (q *TransferQueue) handleTransferResult(
 			} else {
 				q.errorc <- res.Error
 			}
+			verifEv("result.fail", oid, 0)
 			q.wait.Done()
 		}
 	} else {
 		q.trMutex.Lock()
 		objects := q.transfers[oid]
 		objects.completed = true
+		verifEv("result.ok", oid, len(objects.All()))
 
 		// Otherwise, if the transfer was successful, notify all of the
 		// watchers, and mark it as finished.
@@ -959,6 +984,7 @@ func (q *TransferQueue) toAdapterCfg(e lfshttp.Endpoint) AdapterConfig {
 // called, Add will no longer add transfers to the queue. Any failed
 // transfers will be automatically retried once.
 func (q *TransferQueue) Wait() {
+	verifEv("wait.call", "", 0)
 	close(q.incoming)
 
 	q.wait.Wait()
@@ -973,6 +999,7 @@ func (q *TransferQueue) Wait() {
 
 	q.meter.Flush()
 	q.errorwait.Wait()
+	verifEv("wait.done", "", len(q.errors))
 
 	if q.manifest.Upgraded() {
 		manifest := q.manifest.Upgrade()
